@@ -662,21 +662,21 @@ class CopyToParent(Contract):
     depth channel); the identifier is the source's exactly when it is free in the target; the
     metadata handed over is a copy; keyword overrides replace existing attributes only."""
     target = "geoh5py/workspace/workspace.py::Workspace.copy_to_parent"
-    props = ("C12", "C06")
+    props = ("C12", "C06", "C02")
     lenient = True
     uses = (GetAttributesStub, ClearArraysStub)
 
     def cases(self):
-        return [(kind, free, target, clear) for kind in ("object", "data", "drillhole") for free in (True, False) for target in ("group", "workspace") for clear in (False, True)] + [("object", True, "not-a-container", False)]
+        return [(kind, free, target, clear) for kind in ("object", "data", "drillhole") for free in (True, False) for target in ("group", "workspace") for clear in (False, True)] + [("object", True, "not-a-container", False)] + [("root", free, target, False) for free in (True, False) for target in ("group", "workspace")]
 
     def setup(self, ctx):
         from geoh5py.data import FloatData
-        from geoh5py.groups import ContainerGroup
+        from geoh5py.groups import ContainerGroup, RootGroup
         from geoh5py.objects import Drillhole, Points
         from geoh5py.workspace import Workspace
 
         kind, free, target, clear = ctx.case
-        cls = {"object": Points, "data": FloatData, "drillhole": Drillhole}[kind]
+        cls = {"object": Points, "data": FloatData, "drillhole": Drillhole, "root": RootGroup}[kind]
         me = Opaque("self", cls=Workspace)
         ent = Opaque("entity", cls=cls)
         ent.attrs["uid"] = Opaque("entity.uid")
@@ -767,7 +767,16 @@ class CopyToParent(Contract):
                    note="the copy would be built with its source's identifier object, type object or stored flag")
         from geoh5py.data import Data, FloatData
 
-        ctx.oblige("data-go-through-the-data-dispatcher-others-through-their-own-class", made[0]["cls"] is (Data if kind == "data" else e["ent"].cls))
+        if kind == "root":
+            # a file has one Root, and storing a Root group re-points the file's Root link (H5Writer.save_entity):
+            # whatever the copy of a Root becomes, it is not created as the target's (second) Root
+            from geoh5py.groups import Group, RootGroup
+
+            made_cls = made[0]["cls"]
+            ctx.oblige("the-copy-of-a-root-is-not-a-second-root", made_cls is not RootGroup and isinstance(made_cls, type) and issubclass(made_cls, Group) and issubclass(RootGroup, made_cls),
+                       note=f"created as {getattr(made_cls, '__name__', made_cls)}: stored, it takes over the Root link of the target file and what the target held is orphaned")
+        else:
+            ctx.oblige("data-go-through-the-data-dispatcher-others-through-their-own-class", made[0]["cls"] is (Data if kind == "data" else e["ent"].cls))
         cleared = [p["entity"] for k, p in ev if k == "clear_array_attributes"]
         ctx.oblige("caches-released-exactly-on-request", (len(cleared) == 2 and any(x is e["ent"] for x in cleared) and any(x is e["new"] for x in cleared)) if clear else not cleared)
 
